@@ -19,6 +19,9 @@
 (*   UnlockedReads        Sync/Merge read activeFile/isMerging unlocked    *)
 (*   UnlockAroundSync     (seeded change C08-a) the append releases db.mu  *)
 (*                        around its fsync and re-acquires it afterwards   *)
+(*   BgReadsUnlocked      the background-merge goroutine (db.go Open,      *)
+(*                        Options.EnableBackgroundMerge) compared and      *)
+(*                        stored db.bytesWrite without taking db.mu        *)
 (***************************************************************************)
 EXTENDS Integers, Sequences, FiniteSets, TLC
 
@@ -149,10 +152,21 @@ BaUnlock(c) == /\ pc[c] = "b.unlock" /\ mu' = NoLock /\ Ret(c, "ok")
                /\ UNCHANGED <<call, log, idx, loc, merging, reg, seen, got>>
 
 (* ---- Merge: lock, check/set isMerging, unlock; scan (index lookups); lock, clear, unlock - *)
-MeLock(c)   == /\ pc[c] = "start" /\ call[c].op = "Merge" /\ Free /\ mu' = WLock(c) /\ Goto(c, "m.check")
+\* the engine's own background goroutine (call "BgMerge"): once per tick it reads the write counter (fixed code:
+\* under the read lock), merges if something was written, and reads the counter again
+BgRLock(c)  == /\ pc[c] \in {"start", "bg.after"} /\ call[c].op = "BgMerge" /\ ~Has("BgReadsUnlocked")
+               /\ CanR /\ mu' = AddR(c) /\ Goto(c, IF pc[c] = "start" THEN "bg.read1" ELSE "bg.read2")
+               /\ UNCHANGED <<call, log, idx, loc, res, merging, reg, seen, got>>
+BgRead(c)   == /\ \/ pc[c] \in {"bg.read1", "bg.read2"} /\ mu' = DelR(c)
+                  \/ pc[c] \in {"start", "bg.after"} /\ call[c].op = "BgMerge" /\ Has("BgReadsUnlocked") /\ UNCHANGED mu
+               /\ (IF pc[c] \in {"bg.read1", "start"} THEN Goto(c, "bg.merge") /\ UNCHANGED res ELSE Ret(c, "ok"))
+               /\ UNCHANGED <<call, log, idx, loc, merging, reg, seen, got>>
+IsMergeStart(c) == (pc[c] = "start" /\ call[c].op = "Merge") \/ pc[c] = "bg.merge"
+MeRet(c, r) == IF call[c].op = "BgMerge" THEN Goto(c, "bg.after") /\ UNCHANGED res ELSE Ret(c, r)
+MeLock(c)   == /\ IsMergeStart(c) /\ Free /\ mu' = WLock(c) /\ Goto(c, "m.check")
                /\ UNCHANGED <<call, log, idx, loc, res, merging, reg, seen, got>>
 MeCheck(c)  == /\ pc[c] = "m.check" /\ mu' = NoLock
-               /\ (IF merging THEN Ret(c, "merging") /\ UNCHANGED <<merging, loc>>
+               /\ (IF merging THEN MeRet(c, "merging") /\ UNCHANGED <<merging, loc>>
                    ELSE merging' = TRUE /\ loc' = [loc EXCEPT ![c] = 1] /\ Goto(c, "m.scan") /\ UNCHANGED res)
                /\ UNCHANGED <<call, log, idx, reg, seen, got>>
 \* one record of the snapshot of the log taken at the rotation (positions 1..Len(log) at that time are immutable)
@@ -160,7 +174,7 @@ MeScan(c)   == /\ pc[c] = "m.scan"
                /\ (IF loc[c] > Len(log) THEN Goto(c, "m.end") /\ UNCHANGED loc
                    ELSE loc' = [loc EXCEPT ![c] = @ + 1] /\ UNCHANGED pc)     \* reads idx[log[loc].k] atomically
                /\ UNCHANGED <<call, mu, log, idx, res, merging, reg, seen, got>>
-MeEnd(c)    == /\ pc[c] = "m.end" /\ Free /\ merging' = FALSE /\ Ret(c, "ok")
+MeEnd(c)    == /\ pc[c] = "m.end" /\ Free /\ merging' = FALSE /\ MeRet(c, "ok")
                /\ UNCHANGED <<call, mu, log, idx, loc, reg, seen, got>>
 
 Step(c) == \/ PutLock(c) \/ PutAppend(c) \/ PutIndex(c) \/ PutUnlock(c) \/ SyncDrop(c) \/ SyncRetake(c)
@@ -169,6 +183,7 @@ Step(c) == \/ PutLock(c) \/ PutAppend(c) \/ PutIndex(c) \/ PutUnlock(c) \/ SyncD
            \/ LkSnap(c) \/ LkSize(c) \/ SyLock(c) \/ SyUnlock(c)
            \/ BaLock(c) \/ BaCommit(c) \/ BaUnlock(c)
            \/ MeLock(c) \/ MeCheck(c) \/ MeScan(c) \/ MeEnd(c)
+           \/ BgRLock(c) \/ BgRead(c)
 AllDone == \A c \in Clients : pc[c] = "done"
 Next == (\E c \in Clients : Step(c)) \/ (AllDone /\ UNCHANGED vars)
 Spec == Init /\ [][Next]_vars
@@ -199,6 +214,8 @@ Acc(c) ==
     [] p = "m.end" -> [rd |-> {}, wr |-> {"isMerging"}, w |-> ~Has("UnlockedReads"), r |-> FALSE]
     [] p = "sy.unlock" /\ o = "Stat" -> [rd |-> {"counters", "activeFile"}, wr |-> {}, w |-> W, r |-> R]
     [] p = "g.read" -> [rd |-> {"activeFile"}, wr |-> {}, w |-> W, r |-> R]
+    [] p \in {"bg.read1", "bg.read2"} -> [rd |-> {"counters"}, wr |-> {}, w |-> W, r |-> R]
+    [] p \in {"start", "bg.after"} /\ o = "BgMerge" /\ Has("BgReadsUnlocked") -> [rd |-> {"counters"}, wr |-> {}, w |-> FALSE, r |-> FALSE]
     [] p = "start" /\ o = "ListKeys" -> [rd |-> {}, wr |-> (IF Has("CloneUnderRLock") THEN {"btree.cow"} ELSE {}), w |-> FALSE, r |-> FALSE]
     [] OTHER -> [rd |-> {}, wr |-> {}, w |-> W, r |-> R]
 \* two accesses conflict if one writes what the other touches; they are protected if both hold mu and not both
